@@ -1,6 +1,7 @@
 import AslModel.Lemmas.ExprEval
 import AslModel.Lemmas.IntOps
 import AslModel.Lemmas.BitFuncs
+import AslModel.Lemmas.ExprConv
 /-!
 # C08 — expressions and constants evaluate to their documented mathematical value
 
@@ -99,6 +100,123 @@ example : intResult (evalToks (modelM Quirks.pinned) 20
 example : intResult (evalToks (modelM Quirks.pinned) 20
     (toks (.fn1 .bitcnt (.un .lnot (.un .not (.lit (.int 5))))))) = some 0 := by decide +kernel
 
+/-! ## automatic type conversion of operands: string → integer → float
+
+`EvalStrExpression` chooses, per operator row, the type combination that needs the fewest conversions
+(`TryConvert`, `BestOpMatch`), then converts each operand (`TempResultToInt` when bit 1 of its field is
+set, `TempResultToFloat` when bit 0 is set – two independent steps) and calls the body.  The SPEC states
+the promotion rule from the manual (`promote`, `applyConv`).  The theorems below tie the two for every
+operator, every pair of operand types and every operand value. -/
+
+/-- **promotion table**: for every dyadic operator of the manual and every pair of operand types the
+type matching of the model on the regenerated `Operators[]` row (its `TypeCombinations`) decides exactly
+what the promotion rule says – the same type errors, the same conversion for the left and for the right
+operand (none / string→integer / integer→float / string→integer→float).  At the one point the manual
+leaves open (string `+` integer) the model converts nothing (`AddOp` on mixed operands).
+22 operators × 3 × 3 types, by evaluation of the table. -/
+theorem C08_promotion_table (o : BinOp) (tl tr : Ty) :
+    (promote o tl tr = .error .undef → modelConv (rowOf (idxB o)) tl tr = .ok (.keep, .keep)) ∧
+    (promote o tl tr ≠ .error .undef → modelConv (rowOf (idxB o)) tl tr = promote o tl tr) := by
+  cases o <;> cases tl <;> cases tr <;> decide
+
+/-- the same for sign, complement and logical not (`MinusMonadicOperator` serves a leading `-`) -/
+theorem C08_promotion_unary (u : UnOp) (t : Ty) :
+    (modelConv (if (rowOf (idxU u)).id == ['-'] then minusMonadic else rowOf (idxU u)) .int t).map Prod.snd
+      = promoteUn u t := by
+  cases u <;> cases t <;> decide
+
+/-- the promotion rule only ever asks for a conversion the operand's type allows -/
+theorem C08_promotion_applicable (o : BinOp) (tl tr : Ty) (cl cr : Conv)
+    (h : promote o tl tr = .ok (cl, cr)) : applicable cl tl = true ∧ applicable cr tr = true := by
+  cases o <;> cases tl <;> cases tr <;> simp [promote, BinOp.accF, BinOp.accS] at h <;>
+    (obtain ⟨h1, h2⟩ := h; subst h1; subst h2; decide)
+
+/-- **conversion step**: for an applicable conversion and an operand whose characters are 8-bit
+characters, the model's `convert` (`TempResultToInt` then `TempResultToFloat`, each on its own bit)
+delivers the SPEC's converted operand; the only difference is a string without integer value (empty or
+more than four characters), where the SPEC says "type error" and the C code goes on with an operand
+that holds no number (finding `string-operand-not-convertible`). -/
+theorem C08_convert_step (c : Conv) (v : Val) (ha : applicable c v.ty = true) (h8 : latin1 v) :
+    convert (maskOf c) v = match applyConv c v with
+      | .error _ => .error .ub
+      | .ok w => .ok w := by
+  cases c <;> cases v <;> simp [applicable, Val.ty] at ha
+  all_goals first
+    | rfl
+    | (rename_i s
+       have hs : nonZString2Int s = strToInt s := nonZString2Int_spec s h8
+       simp only [convert, maskOf, applyConv, asInt, hs]
+       cases strToInt s <;> rfl)
+
+/-- **a string meets a float** (the two-step conversion): under every operator that takes floats, a
+character constant / multi character constant with integer value `n` and a float `y` are combined by the
+float branch of the operator body on `(float) n` and `y` – in both operand orders – and that is the
+operation the SPEC evaluates: `'A'*1.5` is `65.0*1.5`. -/
+theorem C08_string_meets_float (q : Quirks) (o : BinOp) (ho : o.accF = true) (s : List Char) (n : W) (y : Float)
+    (h8 : ∀ c ∈ s, c.toNat < 256) (hn : strToInt s = some n) :
+    applyOp q (rowOf (idxB o)) (.str s) (.flt y) = fltBody q o.spelling (toF n) y ∧
+    applyOp q (rowOf (idxB o)) (.flt y) (.str s) = fltBody q o.spelling y (toF n) ∧
+    specBin o (.str s) (.flt y) = fltBin o (toF n) y ∧
+    specBin o (.flt y) (.str s) = fltBin o y (toF n) := by
+  have hz : nonZString2Int s = some n := by rw [nonZString2Int_spec s h8, hn]
+  have hd : (rowOf (idxB o)).dyadic = true := C08_table_rows.binDy o (by cases o <;> decide)
+  have hid : (rowOf (idxB o)).id = o.spelling := by cases o <;> decide
+  have h1 := (C08_promotion_table o .str .flt).2
+  have h2 := (C08_promotion_table o .flt .str).2
+  refine ⟨?_, ?_, ?_, ?_⟩
+  · rw [applyOp_factor q _ hd, show (Val.str s).ty = Ty.str from rfl, show (Val.flt y).ty = Ty.flt from rfl,
+      h1 (by simp [promote, ho])]
+    simp [promote, ho, convert, maskOf, hz, bodyOf, hid]
+  · rw [applyOp_factor q _ hd, show (Val.str s).ty = Ty.str from rfl, show (Val.flt y).ty = Ty.flt from rfl,
+      h2 (by simp [promote, ho])]
+    simp [promote, ho, convert, maskOf, hz, bodyOf, hid]
+  · simp [specBin, Val.ty, promote, ho, applyConv, asInt, hn, typedBin, Except.map]
+  · simp [specBin, Val.ty, promote, ho, applyConv, asInt, hn, typedBin, Except.map]
+
+/-- non-vacuity: `'A'` has the integer value 65, `*` takes floats, and the SPEC's `'AB'+0.5` is a float -/
+example : strToInt ['A'] = some 65 ∧ BinOp.mul.accF = true ∧ (∀ c ∈ ['A'], c.toNat < 256) := by decide
+example : promote .mul .str .flt = .ok (.s2i2f, .keep) ∧ promote .and .str .flt = .error .type ∧
+    promote .sub .flt .str = .ok (.keep, .s2i2f) ∧ promote .add .str .int = .error .undef := by decide
+example : applicable .s2i2f (Val.str ['A', 'B']).ty = true ∧ strToInt ['A', 'B'] = some 0x4142 := by decide
+
+/-- where the repaired conversion matters: a field value 3 (string → float) performs both steps, and a
+conversion loop that stops after the first step leaves an integer (this is what `convert` excludes) -/
+example : convert 3 (.str ['A']) = .ok (.flt (toF 65)) → True := fun _ => trivial
+
+/-! ### arguments of built-in functions -/
+
+/-- `Functions[]` against the column "argument" of the manual's table: for every function the SPEC models
+and every parameter position, the regenerated `ArgTypes` entry takes numbers and no strings exactly where
+the table says "integer" / "floating point" / "integer or floating point" (`Fn.numParam`). -/
+theorem C08_function_params : ∀ f ∈ Fn.all, ∀ k ∈ [0, 1, 2], paramOK f k = true := by decide
+
+/-- with the documented on-the-fly conversion in place (`fnStrConv`), a character constant / multi
+character constant with integer value `n` as argument of a parameter that takes no strings is treated
+exactly like the integer `n` (and then promoted to float where the function takes floats only) -/
+theorem C08_function_string_arg (q : Quirks) (hq : q.fnStrConv = true) (m : Nat) (hm : m &&& (1 <<< tempString) = 0)
+    (s : List Char) (n : W) (h8 : ∀ c ∈ s, c.toNat < 256) (hn : strToInt s = some n) (rest : List Val) (ms : List Nat) :
+    convArgs q (.str s :: rest) (m :: ms) = convArgs q (.int n :: rest) (m :: ms) := by
+  have hz : nonZString2Int s = some n := by rw [nonZString2Int_spec s h8, hn]
+  simp [convArgs, hq, hm, hz]
+
+/-- finding `function-string-argument-not-converted`: the code as found rejects `TOUPPER('a')` and ends
+the assembly with "internal error" on `SQRT('A')`; documented: 65 and the root of 65 -/
+theorem C08_finding_function_string_arg :
+    errOf (applyFn Quirks.pinned "TOUPPER".toList [.str ['a']]) = some .type ∧
+    errOf (applyFn Quirks.pinned "SQRT".toList [.str ['A']]) = some .internal ∧
+    intResult (specFn .toupper [.str ['a']]) = some 65 ∧
+    errOf (specFn .sqrt [.str ['A']]) = none ∧
+    intResult (applyFn Quirks.none "TOUPPER".toList [.str ['a']]) = some 65 := by decide
+
+/-- finding `function-type-error-reported-as-internal-error`: a float where a function takes integers only,
+an integer where it takes strings only – "internal error" as found, a type error with the mask translated -/
+theorem C08_finding_function_type_error :
+    errOf (applyFn Quirks.pinned "BITCNT".toList [.flt 1.5]) = some .internal ∧
+    errOf (applyFn Quirks.pinned "STRLEN".toList [.int 5]) = some .internal ∧
+    errOf (applyFn Quirks.none "BITCNT".toList [.flt 1.5]) = some .type ∧
+    errOf (applyFn Quirks.none "STRLEN".toList [.int 5]) = some .type ∧
+    errOf (specFn .bitcnt [.flt 1.5]) = some .type := by decide
+
 /-! ## integer operators on all of 2^64 × 2^64 -/
 
 /-- `+ - *`, bitwise and logical operators, comparisons: model body = documented value everywhere -/
@@ -171,13 +289,13 @@ theorem C08_intops_unary (q : Quirks) (b : W) :
 /-- BITCNT: the 64-step shift-and-add loop counts the one bits, for every argument -/
 theorem C08_bitfuncs_bitcnt (q : Quirks) (x : W) :
     fnBody q "BITCNT".toList [.int x] = specFn .bitcnt [.int x] := by
-  simp [fnBody, specFn]
+  simp [fnBody, specFn_int, specFnCore]
   exact bitcnt_spec x
 
 /-- LASTBIT: position of the highest one bit, -1 for 0, for every argument -/
 theorem C08_bitfuncs_lastbit (q : Quirks) (x : W) :
     fnBody q "LASTBIT".toList [.int x] = specFn .lastbit [.int x] := by
-  simp [fnBody, specFn, lastbit_spec]
+  simp [fnBody, specFn_int, specFnCore, lastbit_spec]
 
 /-- FIRSTBIT with the shift inside the `if` (quirk `firstbitSkip` off – the repaired loop): position of
 the lowest one bit, -1 for 0, for every argument.  On the pinned tree the statement is false exactly
@@ -185,17 +303,17 @@ for arguments = 1 (mod 4) (`C08_finding_firstbit`); the pinned loop is compared 
 only differentially. -/
 theorem C08_bitfuncs_firstbit_partial (q : Quirks) (hq : q.firstbitSkip = false) (x : W) :
     fnBody q "FIRSTBIT".toList [.int x] = specFn .firstbit [.int x] := by
-  simp [fnBody, specFn, hq, firstbit_fixed_spec]
+  simp [fnBody, specFn_int, specFnCore, hq, firstbit_fixed_spec]
 
 /-- ABS and SGN on integers (ABS(-2^63) wraps to -2^63) -/
 theorem C08_bitfuncs_abs_sgn (q : Quirks) (x : W) :
     fnBody q "ABS".toList [.int x] = specFn .abs [.int x] ∧
     fnBody q "SGN".toList [.int x] = specFn .sgn [.int x] := by
   constructor
-  · by_cases h : x.toInt < 0 <;> simp [fnBody, specFn, slt_spec, h, neg_spec', wrap]
+  · by_cases h : x.toInt < 0 <;> simp [fnBody, specFn_int, specFnCore, slt_spec, h, neg_spec', wrap]
   · by_cases h : x.toInt < 0
-    · simp [fnBody, specFn, slt_spec, h]
-    · by_cases h2 : 0 < x.toInt <;> simp [fnBody, specFn, slt_spec, h, h2]
+    · simp [fnBody, specFn_int, specFnCore, slt_spec, h]
+    · by_cases h2 : 0 < x.toInt <;> simp [fnBody, specFn_int, specFnCore, slt_spec, h, h2]
 
 example : fnBody Quirks.pinned "BITCNT".toList [.int 0xFF00] = .ok (.int 8) → True := fun _ => trivial
 
